@@ -89,6 +89,9 @@ def size_delta(view, f, ev):
         return "=maplen"
     if v[0] == "phi":
         return "=counter"
+    cv = component(strip(v))
+    if cv and cv[0] == "size" and ev.get("root") is not None and strip(cv[1]) != strip(ev["root"]):
+        return "=maplen"   # `self.size = source.size`: the length of the store whose tables are being copied (clone_from)
     return "other"
 
 
@@ -135,7 +138,9 @@ def body_marks(view, f, published_only=True):
                 tag = ("grow", comp, ev)
             elif how in ("call:swap_remove", "call:pop", "call:remove"):
                 tag = ("shrink", comp, ev)
-            elif how in ("call:clear", "call:truncate", "call:drain"):
+            elif how in ("call:clear", "call:truncate", "call:drain", "call:clone_from", "call:clone_into"):
+                # the whole table is replaced (emptied, or overwritten by a copy of another store's table): all four
+                # components must be replaced together
                 tag = ("whole", comp, ev)
             elif how == "call:swap":
                 tag = ("swapcall", comp, ev)
@@ -167,7 +172,7 @@ def body_marks(view, f, published_only=True):
                 tag = ("shrink", "map", ev)
                 if continuation_completes(view, f, ev):
                     tag = ("noop",)  # keyed removal: the hit-closure (analysed with the map already one short) completes the group
-            elif mc == "clear":
+            elif mc in ("clear", "replace"):
                 tag = ("whole", "map", ev)
             elif mc == "retain":
                 tag = ("retain", ev)
@@ -184,7 +189,11 @@ def body_marks(view, f, published_only=True):
                     if "MRUC" in fx.effects.get(c, ()):
                         m = True
             if m:
-                marks.setdefault(bb, []).insert(len(marks.get(bb, [])) - (1 if tag else 0), ("mruc", ev))
+                if tag and ev.get("mclass") == "replace":
+                    # `map.clone_from(..)`: the user's Clone runs while the map is being overwritten (W;U, not U;W)
+                    marks.setdefault(bb, []).append(("mruc", ev))
+                else:
+                    marks.setdefault(bb, []).insert(len(marks.get(bb, [])) - (1 if tag else 0), ("mruc", ev))
     # local counter increments (unpublished construction idiom)
     for l in counters:
         for d in f.defs.get(l, []):
@@ -358,6 +367,22 @@ def absent_key_guard(view, f, ev):
                 absent_target = (t["otherwise"] if neg else (zero[0] if zero else None))
                 if absent_target is not None and f.cfg.dominates(absent_target, ev["bb"]) and len(f.cfg.pred[absent_target]) == 1:
                     return True, "dominated by the key-absent edge of contains_key on the same key"
+    # dominated by the None edge of a keyed lookup of the same key in the same map
+    from .core import edge_presence as _ep
+    for bi in sorted(f.cfg.reach):
+        t = f.term(bi)
+        if t["k"] != "switch" or len(f.cfg.succ[bi]) < 2:
+            continue
+        d = strip(vp.operand(f, t["discr"]))
+        if d[0] != "discr":
+            continue
+        for x in walk(d):
+            if x[0] == "call" and x[1].split("::")[-1] in ("get", "get_mut", "get_full", "get_full_mut", "get_full_mut2", "get_index_of", "get_key_value") \
+                    and len(x[2]) == 2 and component(x[2][0]) and component(args[0]) and component(x[2][0]) == component(args[0]) \
+                    and key is not None and strip(x[2][1]) == key:
+                for nb in f.cfg.succ[bi]:
+                    if _ep(d, t, nb) == "absent" and f.cfg.dominates(nb, ev["bb"]) and len(f.cfg.pred[nb]) == 1:
+                        return True, "dominated by the None edge of %s on the same key" % x[1].split("::")[-1]
     # its result controls the growth: `if map.insert(k, v).is_none() { grow }`
     site = vp.call_term(f, ev["bb"], ci.t)
     for bi in sorted(f.cfg.reach):
@@ -812,7 +837,8 @@ def r_growval(ctx, view, only=None):
                         rt = strip(root) if root else None
                         if rt is not None:
                             for x in walk(rt):
-                                if x[0] == "call" and x[1].split("::")[-1] in FRESH_STORE_CTORS:
+                                nm = x[1].split("::")[-1] if x[0] == "call" else ""
+                                if x[0] == "call" and (nm in FRESH_STORE_CTORS or nm.startswith("with_")) and ("Store" in x[1] or nm in ("default",)):
                                     fresh = True
                         ok, why = (True, "counter from 0 on a store created empty in this function") if fresh else \
                                   (False, "counter starts at 0 but the store (%s) is not created empty here" % term_str(root)[:60])
